@@ -89,7 +89,9 @@ def generic_plan(prop, tier, plan, worker, replay=None, extra=None, post=None):
         if tiers and tier not in tiers:
             continue
         what = e.pop("what")
+        quota = e.pop("quota", None)
         r_ = rc.run_exec(tr, what, emit=True, backends=True, **e)       # an emit entry may carry invariants: laws and cases from one run
+        r_.quota = quota                                                 # replay at least this many of this stratum's behaviours
         if r_.violated or r_.deadlock:
             rc.law_violation(vd, r_, what)
         results.append(r_)
@@ -104,7 +106,7 @@ def generic_plan(prop, tier, plan, worker, replay=None, extra=None, post=None):
                                        backends=True, level=2, samplek=sim.pop("samplek", 6) if "samplek" in sim else 6,
                                        **{k: v for k, v in sim.items()}))
     limit = plan.get("limit", (6000, 30000))[0 if tier == "quick" else 1]
-    cases = rc.collect_cases(results, limit=limit)
+    cases = rc.collect_cases(results, limit=limit, tier=tier)
     pre = plan.get("prepare")
     if pre:
         cases = pre(cases, tier)
@@ -1097,6 +1099,11 @@ PLAN_C04 = {
              dict(what="an ordering with a limit inside one branch of a fork (dup | swap, order_rows by o / z / w with limit 0 | 1, "
                        "concat | inner join): every 4-call behaviour that ends with one open pipeline, <= 1 row",
                   fams=["oo", "extend", "stack", "binary"], rows=1, steps=4, level=0, one_in=1, emitsel="fork", timeout=600, **TB),
+             dict(what="one sub-pipeline (a grouped project) used twice, once below select_rows / a column-reversing select_columns "
+                       "(project w=sum(x) by o, o >= 0, reversed select, dup | swap, concat | inner join): every 6-call behaviour "
+                       "that ends with one open pipeline, one-row and empty tables",
+                  fams=["po1", "sr", "corev", "stack", "binary"], rows=1, steps=6, level=0, one_in=1, emitsel="fork", timeout=600,
+                  quota=(700, 3000), tabcols="MCB_TabCols", colvals="MCD_ColVals"),
              dict(what="all 2-call extend / windowed extend sequences, <= 1 row (sampled)", fams=["extend", "extend2", "wextend"], rows=1,
                   steps=2, level=1, one_in=300, timeout=300, tier=("thorough",), **TB)],
     "sim": dict(what="random pipelines of 4 calls biased to shared sub-pipelines and consecutive extends",
@@ -1107,7 +1114,7 @@ PLAN_C04 = {
             "initial_commas, use_cte_elim and two indents when the pipeline re-uses a sub-pipeline or has consecutive extends (a "
             "5-combination cover otherwise), de-duplicated by text, executed, and every result compared with the first; "
             "non-trivial = shared sub-pipeline or consecutive extends, and some input has rows",
-    "limit": (500, 3000),
+    "limit": (1200, 6000),
     "assumptions": ASSUME_REL + ["PostgreSQL-dialect text is executed on SQLite 3.40 (no PostgreSQL engine in the sandbox)",
                                  "statements that raise under an option combination are counted, not compared"],
 }
